@@ -137,7 +137,7 @@ def typed_matches(ty: Ty, x, depth=0, strict=False):
             return False
         from . import conds as C
         try:
-            return all(C.pred(c)(x) for c in ty.x['conds'])
+            return all(bool(C.pred(c)(x)) for c in ty.x['conds'])
         except Exception:
             return False
     if k == 'tagged': return any(type(x) is py_class(v) for v in ty.a)
@@ -145,7 +145,7 @@ def typed_matches(ty: Ty, x, depth=0, strict=False):
         if type(x).__name__ != 'ndarray':
             return False
         want = {'int': 'iu', 'float': 'f', 'complex': 'c', 'bool': 'b', 'str': 'U'}.get(ty.x.get('dtype'))
-        return want is None or x.dtype.kind in want
+        return want is None or x.size == 0 or x.dtype.kind in want     # (numpy makes every empty array float64)
     if k == 'vol':
         if type(x).__name__ != 'ValueOrList':
             return False
